@@ -5,6 +5,8 @@
 -/
 import Proofs.VerifyAuth
 import Proofs.AuthData
+import Proofs.VerifyReg
+import Proofs.Attestation
 namespace Webauthn.Props.C10
 open Webauthn Generated
 
@@ -100,5 +102,48 @@ theorem layout {val : Bytes} {ad : AuthData} (h : parseAuthData val = .ok ad) :
       have := Except.ok.inj hr2; rw [← this, hp]; rfl
     · rename_i hp
       have := Except.ok.inj hr2; rw [← this]; simpa using hp
+
+/-- Registration, every format: acceptance and the reported fields follow the table for the flags byte of the
+authenticator data inside the attestation object — UP unless waived, UV when required, AT (attested data present),
+BS only with BE; user_verified / device type / backed-up are those bits. Whatever the format's own verifier does, these
+come from the one flags byte. -/
+theorem reg_gate {W : World} {c : RegCred} {e : RegExpect} {r : VerifiedReg}
+    (h : runM W (verifyReg c e) = .ok r) :
+    ∃ ao ad b, parseAttObj c.attestationObject = .ok ao ∧ authDataBytesOf ao.authDataRaw = .ok ad ∧ ad[32]? = some b ∧
+      (e.requireUP = true → Spec.bit b 0 = true) ∧ (e.requireUV = true → Spec.bit b 2 = true) ∧
+      Spec.bit b 6 = true ∧
+      ¬ (Spec.bit b 4 = true ∧ Spec.bit b 3 = false) ∧
+      r.userVerified = Spec.bit b 2 ∧
+      r.deviceType = (if Spec.bit b 3 then "multi_device" else "single_device") ∧
+      r.backedUp = Spec.bit b 4 := by
+  obtain ⟨a⟩ := verifyReg_ok_iff.mp h
+  obtain ⟨kvs, adBytes, _, _, _, hb, hp, _⟩ := parseAttObj_ok a.aoOk
+  obtain ⟨_, _, b, hb32, hflags, _⟩ := parseAuthData_header hp
+  obtain ⟨b', hb', hat, _⟩ := layout hp
+  have hbb : b' = b := by rw [hb32] at hb'; exact (Option.some.inj hb').symm
+  subst hbb
+  have e_up : a.ao.authData.flags.up = Spec.bit b' 0 := by rw [hflags]; rfl
+  have e_uv : a.ao.authData.flags.uv = Spec.bit b' 2 := by rw [hflags]; rfl
+  have e_be : a.ao.authData.flags.be = Spec.bit b' 3 := by rw [hflags]; rfl
+  have e_bs : a.ao.authData.flags.bs = Spec.bit b' 4 := by rw [hflags]; rfl
+  have hbf := a.bfOk
+  have hup := a.upOk; have huv := a.uvOk
+  rw [backup] at hbf
+  simp only [e_be, e_bs] at hbf
+  simp only [e_up, e_uv, regUpRejects, regUvRejects] at hup huv
+  have hrec := a.record
+  simp only [e_uv] at hrec
+  have hatt : Spec.bit b' 6 = true := by rw [← hat, a.attOk]; rfl
+  refine ⟨a.ao, adBytes, b', a.aoOk, hb, hb32, ?_, ?_, hatt, ?_, ?_, ?_, ?_⟩
+  · intro hreq; rw [hreq] at hup; simpa using hup
+  · intro hreq; rw [hreq] at huv; simpa using huv
+  · intro ⟨h4, h3⟩; rw [h4, h3] at hbf; simp at hbf
+  · rw [hrec]
+  · split at hbf
+    · cases hbf
+    · have := Except.ok.inj hbf; rw [hrec, ← this]
+  · split at hbf
+    · cases hbf
+    · have := Except.ok.inj hbf; rw [hrec, ← this]
 
 end Webauthn.Props.C10
